@@ -142,7 +142,7 @@ _F25_EXPECT = ('syntax-invalid', 'undriven', 'output-mismatch', 'multi-driver')
 _IFCS = ('class Inner( Interface ):\n  def construct( s ):\n    s.msg = InPort( Bits4 )\n    s.ack = OutPort( Bits1 )\n\n'
          'class Outer( Interface ):\n  def construct( s ):\n    s.val = InPort( Bits1 )\n    s.ch = [ Inner() for _ in range(3) ]\n\n')
 WITNESSES += [
-  {'label': F12 + ':witness', 'finding': F12, 'variant': None, 'expect': ('output-mismatch',), 'backends': ('verilog',), 'features': ['finding-stream'],
+  {'label': F12 + ':witness', 'finding': F12, 'variant': 'tmpvar', 'expect': ('output-mismatch',), 'backends': ('verilog', 'yosys'), 'features': ['finding-stream'],
    'cycles': [{'.a': 0, '.reset': 0}, {'.a': 4, '.reset': 0}],
    'src': 'from pymtl3 import *\n'
           'class Top( Component ):\n  def construct( s ):\n    s.a = InPort( Bits4 )\n    s.o = OutPort( Bits4 )\n'
@@ -245,4 +245,30 @@ CORPUS += [
           '    s.sub = Inc()\n'
           '    s.cfg //= Cfg( 1, [ Pair( 2, 3 ), Pair( 4, 1 ) ], [ [ Pair(1,1), Pair(2,2) ], [ Pair(3,3), Pair(4,0) ] ], [ Deep( [ Pair(5,1), Pair(6,2) ], 5 ), Deep( [ Pair(7,3), Pair(8,0) ], 2 ) ] )\n'
           '    s.sub.in_ //= s.in_\n    s.o1 //= s.sub.out\n    s.o2 //= s.in_\n    s.k //= s.sub.k\n'},
+]
+
+# ---------------------------------------------------------------------------------------------
+# round 8: F12 variant cast-of-sum (known, both backends); witnesses of the repaired F38 (059826b) and F39 (24d6fc0)
+# ---------------------------------------------------------------------------------------------
+WITNESSES += [
+  {'label': F12 + ':cast-of-sum:witness', 'finding': F12, 'variant': 'cast-of-sum', 'expect': ('output-mismatch', 'cast-reading-dependent'),
+   'backends': ('verilog', 'yosys'), 'features': ['finding-stream'],
+   'cycles': [{'.a': 0, '.reset': 0}, {'.a': 4, '.reset': 0}],
+   'src': 'from pymtl3 import *\n'
+          'class Top( Component ):\n  def construct( s ):\n    s.a = InPort( Bits8 )\n    s.o = OutPort( Bits8 )\n'
+          '    @update\n    def up():\n      s.o @= 0\n      for i in range(4):\n        if s.a == Bits8(i + 1):\n          s.o @= Bits8(i + 1) + 100\n'},
+]
+CORPUS += [
+  {'label': 'corpus:fixed:F38-bool-constant-attribute', 'backends': ('verilog', 'yosys'), 'features': ['corpus', 'fixed-defect-shape'],
+   'src': 'from pymtl3 import *\nGF = True\n'
+          'class Top( Component ):\n  def construct( s ):\n    s.a = InPort( Bits8 )\n    s.o = OutPort( Bits8 )\n    s.p = OutPort( Bits1 )\n    s.q = OutPort( Bits1 )\n    s.r = OutPort( Bits8 )\n'
+          '    s.FLAG = True\n    s.FL = [ True, False ]\n    cf = True\n'
+          '    @update\n    def up():\n      if s.FLAG:\n        s.o @= s.a + 1\n      else:\n        s.o @= s.a\n'
+          '      s.p @= s.a[0] & s.FLAG\n      s.q @= s.a[1] & s.FL[0] | s.FL[1]\n'
+          '    @update\n    def up2():\n      s.r @= s.a\n      if GF & cf:\n        s.r @= ~s.a\n'},
+  {'label': 'corpus:fixed:F39-if-expression-loop-bound', 'backends': ('verilog', 'yosys'), 'features': ['corpus', 'fixed-defect-shape'],
+   'src': 'from pymtl3 import *\n'
+          'class Top( Component ):\n  def construct( s ):\n    s.a = InPort( Bits8 )\n    s.mode = InPort( Bits1 )\n    s.o = OutPort( Bits8 )\n    s.q = OutPort( Bits8 )\n    s.MODE = 0\n'
+          '    @update\n    def up():\n      s.o @= 0\n      for i in range(4 if s.MODE else 8):\n        s.o @= s.o + s.a\n'
+          '      s.q @= 0\n      for j in range(2 if s.mode else 5):\n        s.q @= s.q + 1\n'},
 ]
